@@ -83,6 +83,19 @@ def setMax (D : Data) (v : VarId) (m : Rat) : Data :=
 def precOf : VarId → Nat
   | .ic => 2 | .oc => 2 | _ => 3
 
+/-- A configured limit arrives as the float nearest to the decimal the user wrote.  The model's values are exact
+grid decimals, Go's are the floats nearest to them, and Go compares float with float: a limit within 2^-50
+(relative) of a grid point of the limited variable IS that grid point for every comparison Go can make.
+Limits further off the grid are taken as the exact rational the float denotes (the suites keep those at least
+0.01 grid unit away from every grid point). -/
+def snapLimit (v : VarId) (m : Rat) : Rat :=
+  let g := Crem.rnd (precOf v) m
+  let scale : Rat := (10 ^ precOf v : Nat)
+  let d := (m - g) * scale
+  let ad := if d < 0 then -d else d
+  let mag := if g < 0 then -g * scale else g * scale
+  if ad ≤ (if mag < 1 then 1 else mag) / (2 ^ 50 : Nat) then g else m
+
 /-- the bounded variable's quoted value when the verdict is negative -/
 def quoted (D : Data) (s : State) : String :=
   match allVars.find? (fun v => !(withinBounds D v (undoableValue s v))) with
@@ -118,7 +131,7 @@ def step (st : St) (line : String) : St × String :=
     | _, _, _ => (st, "bad-op")
   | ["max", v, bits] =>
     match varOfName v, parseFloatBits bits with
-    | some vid, some m => ({ st with D := setMax st.D vid m }, "ok")
+    | some vid, some m => ({ st with D := setMax st.D vid (snapLimit vid m) }, "ok")
     | _, _ => (st, "bad-op")
   | ["endload"] =>
     -- the extracted records must be consistent with the action constants up to float error; the model
